@@ -18,7 +18,7 @@ ASSUMPTIONS = ['data excludes the acknowledgement\'s own delimiters ~ * : ^ (tha
                'multi-interchange inputs share sender/receiver (which interchange a single 997 should address is not defined by the property)',
                'AK902 is compared only when GE01 is a canonical number; itemisation is checked tree => acknowledgement, not the converse',
                'a logged ERROR record counts as "reported"']
-REQUIRED_COUNTERS = ['envelope-discrepancies-checked', 'reader-findings-checked', 'docs:A', 'docs:B', 'docs:with-errors', 'docs:valid', 'ak2-checked', 'ak3-checked', 'ak4-checked', 'ak9-checked', 'acks:997', 'acks:999']
+REQUIRED_COUNTERS = ['docs:composite-and-one-of-its-components-wrong', 'envelope-discrepancies-checked', 'reader-findings-checked', 'docs:A', 'docs:B', 'docs:with-errors', 'docs:valid', 'ak2-checked', 'ak3-checked', 'ak4-checked', 'ak9-checked', 'acks:997', 'acks:999']
 MIN_CASES = {'quick': 700, 'thorough': 20000}
 WATCHDOG_S = {'quick': 1200, 'thorough': 7200}
 
@@ -349,6 +349,26 @@ def perturb_envelope(rng, doc):
     return d
 
 
+def several_findings_on_one_element(rng, doc):
+    """a composite that is wrong as a whole (one component too many) AND in one of its components (too long / not in the code list):
+    two error nodes at the same element position, one with and one without a component index"""
+    d = faults.clone(doc)
+    sites = [x for x in faults.element_sites(d, None) if x[3] is not None and faults._present(x[4]) and x[1].usage != 'N' and faults._plain_site(x[0], x[1], x[2], x[3], x[4], d)]
+    if not sites:
+        return None
+    i, node, ep, sp, cur = rng.choice(sites)
+    comp = d.recs[i].node.children[ep - 1]
+    dt, mn, mx = gen_doc.dtype_of(node)
+    faults.set_value(d.recs[i], ep, sp, 'Q' * (mx + 1))
+    v = d.recs[i].vals[ep - 1]
+    v = list(v) if isinstance(v, list) else [v]
+    while len(v) < len(comp.children):
+        v.append('')
+    v += ['X'] * rng.choice([1, 2])
+    d.recs[i].vals[ep - 1] = v
+    return d
+
+
 def run(ctx):
     sigs = set()
     n = 0
@@ -383,6 +403,12 @@ def run(ctx):
             if f is not None:
                 doc = f.doc
                 kinds.append(f.kind)
+        if rng.random() < 0.15:
+            d2 = several_findings_on_one_element(rng, doc)
+            if d2 is not None:
+                doc = d2
+                kinds.append('composite-and-component-of-it')
+                ctx.count('docs:composite-and-one-of-its-components-wrong')
         if rng.random() < 0.3:
             doc = perturb_envelope(rng, doc)
             kinds.append('envelope')
